@@ -150,7 +150,7 @@ PROPS['C01'] = dict(
     theorems=[('Properties.C01', ['C01_header_section_round_trips', 'C01_block_framing_ignores_block_content', 'C01_marker_is_accepted_and_consumed', 'C01_marshal_layout', 'C01_marshal_then_parse_returns_the_record', 'C01_strictly_built_header_is_accepted_under_every_policy'])],
     kinds={'panic', 'roundtrip-lossy', 'remarshal-differs', 'policy-incoherent', 'trimmed-value'},
     rule='rt: 1-5 records accepted by the strict builder (all record types incl. unknown, both versions, generic/HTTP/warc-fields blocks with delimiter-imitating content, unknown fields with odd but clean values), built under a random policy, marshaled, concatenated plain or as gzip members, read back through ONE WarcFileReader under another policy (2/3 strict) with the same add/repair flags, compared (version, type, ordered fields, block) and marshaled again; spill thresholds around the block size; unm/build: model correspondence. distinct = distinct implementation observations',
-    level_text='PARTIAL proof. Proved in Coq (C01_marshal_then_parse_returns_the_record): for every record that is valid for the reader (version 1.0/1.1, well-formed header fields that validate with no finding, truthful Content-Length, block that parses to itself, digests absent or valid), every following byte sequence and stream tail, under every policy setting, parsing the marshalled form returns exactly that record (version, type, ordered fields, block), no finding, and leaves exactly the following bytes - so blocks imitating CRLFCRLF or WARC/1.1 cannot confuse framing. Stage theorems: header section round trip for unbounded field lists, framing, marker, layout. Not mechanised: that every record Build accepts is valid in that sense for every reader policy (established stage by stage in C02, C03, C17), re-marshalling equality, and the gzip container; these are evaluated on the implementation by the executable statement (build, marshal plain or gzip, parse under another policy, compare, marshal again).',
+    level_text='PARTIAL proof. Proved in Coq (C01_marshal_then_parse_returns_the_record): for every record that is valid for the reader (version 1.0/1.1, well-formed header fields that validate with no finding, truthful Content-Length, block that parses to itself, digests absent or valid), every following byte sequence and stream tail, under every policy setting, parsing the marshalled form returns exactly that record (version, type, ordered fields, block), no finding, and leaves exactly the following bytes - so blocks imitating CRLFCRLF or WARC/1.1 cannot confuse framing. Stage theorems: header section round trip for unbounded field lists, framing, marker, layout. Builder side of the link, header stage (C01_strictly_built_header_is_accepted_under_every_policy): the final header of every record the strict builder returns - the length and digest fields it added included - is accepted with no finding by header validation under every pair of spec / unknown-type policies and resolves to the same known record type (the attempt to state this showed that a record type given only as a WARC-Type header was not adopted by Build: defect repaired, fix 71854e8). Not mechanised: that the block and digest stages of every record Build accepts are valid in that sense for every reader policy (established stage by stage in C02, C03), re-marshalling equality, and the gzip container; these are evaluated on the implementation by the executable statement (build, marshal plain or gzip, parse under another policy, compare, marshal again).',
     level_note="Trusted: Coq kernel, extraction (ExtrOcamlBasic), harness and generators. Oracles: hash functions (Python hashlib), base32/base64 decoders, mime.WordDecoder, net/http header parsing, whatwg-url, net.ParseIP, time.Parse, Unicode case mapping; klauspost gzip (a member is its payload; a cut member yields a payload prefix then io.ErrUnexpectedEOF). bufio.Reader is remaining bytes + a persistent tail condition. Findings are compared by coarse kind derived from error texts. Reading of the text: the reader runs with the builder's add-missing/repair flags; values with edge blanks are a recorded known finding (trimmed), values with encoded-words are outside the property.",
     assumptions=[],
 )
@@ -194,7 +194,7 @@ PROPS['C08'] = dict(
     theorems=[('Properties.C08', ['C08_header_fail_is_first_warn_finding', 'C08_header_ignore_no_findings', 'C08_header_warn_never_errors', 'C08_digest_verification_coherent', 'C08_no_axis_at_warn_parser_adds_no_finding', 'C08_no_axis_at_warn_builder_adds_no_finding', 'C08_uniform_ignore_and_uniform_fail_are_covered', 'C08_parser_fail_errs_exactly_when_warn_finds_or_errs', 'C08_builder_fail_errs_exactly_when_warn_finds_or_errs', 'C08_header_parser_rejection_is_monotone', 'C08_header_validation_rejection_is_monotone', 'C08_header_parser_strict_acceptance_is_policy_independent', 'C08_axis_monotonicity_refuted_by_block_repair'])],
     kinds={'panic', 'policy-incoherent', 'wfblock-repair-nonmonotone'},
     rule='coh: mutated record streams (parser, plain/gzip) and builder inputs with declared lengths/digests; each run under uniform ignore / warn / fail (no findings under ignore; nil error under fail implies empty validation; fail errs iff warn has a finding or error; rejection monotone) and axis by axis (syntax, spec, unknown type, block) against the other axes as drawn; hparse/validate/unm/build: model correspondence under all policies',
-    level_text='Proved in Coq for the WHOLE parser pipeline on plain streams (record-start search, version line, header parser, header validation, parseBlock, length/digest verification, end-of-record marker) and the whole builder, for every input: (sentences 1-2) with no axis at warn - uniform ignore, uniform fail, every mix - no stage adds a finding, so under ignore no finding is produced and under fail a nil error comes with an empty validation; (sentence 3) with all axes at one level, fail returns an error exactly when warn produces at least one finding or an error - the two runs proceed in lock step until the first finding, stage by stage. PARTIAL: the last sentence (axis-by-axis monotonicity under mixed settings) and the gzip container are not mechanised; they are evaluated on the implementation under all 81 axis settings for every generated input, the stage models being tied by the correspondence run. The defect that folded header lines ignored the policy was found here and repaired',
+    level_text='Proved in Coq for the WHOLE parser pipeline on plain streams (record-start search, version line, header parser, header validation, parseBlock, length/digest verification, end-of-record marker) and the whole builder, for every input: (sentences 1-2) with no axis at warn - uniform ignore, uniform fail, every mix - no stage adds a finding, so under ignore no finding is produced and under fail a nil error comes with an empty validation; (sentence 3) with all axes at one level, fail returns an error exactly when warn produces at least one finding or an error - the two runs proceed in lock step until the first finding, stage by stage. The last sentence (axis-by-axis monotonicity) is proved for two stages - the header parser along the syntax axis (record headers and warc-fields blocks) and header validation along the spec and unknown-type axes (rejected under a setting, rejected under every setting at least as strict) - and REFUTED for the whole parser when the warc-fields block repair is on (C08_axis_monotonicity_refuted_by_block_repair, a witness the proof attempt produced and the implementation reproduces: known finding wfblock-repair-nonmonotone). PARTIAL: the last sentence for the remaining stages with that repair off and the gzip container are not mechanised; they are evaluated on the implementation, uniformly and axis by axis, for every generated input (including repair-sensitive records that declare the digest of their repaired block), the stage models being tied by the correspondence run. The defect that folded header lines ignored the policy was found here and repaired',
     level_note='Trusted: Coq kernel, extraction (ExtrOcamlBasic), harness and generators. Oracles: hash functions (Python hashlib), base32/base64 decoders, mime.WordDecoder, net/http header parsing, whatwg-url, net.ParseIP, time.Parse, Unicode case mapping; klauspost gzip (a member is its payload; a cut member yields a payload prefix then io.ErrUnexpectedEOF). bufio.Reader is remaining bytes + a persistent tail condition. Findings are compared by coarse kind derived from error texts. ',
     assumptions=[],
 )
